@@ -43,7 +43,7 @@ non-overlap of allocations beyond the bump discipline.  Borrow witnesses W4-W7/W
 
 ASSUMPTIONS = ['the borrow checker (for caller-provided buffers)', 'libc::iovec / IoSlice layout equality (compile-time assertion in the crate)']
 
-FLOORS = {'R5.1': 35, 'R5.2': 28, 'R5.3': 6, 'R5.4': 7, 'R5.6': 7, 'R5.7': 5, 'R5.8': 10, 'R5.9': 10}
+FLOORS = {'R5.1': 35, 'R5.2': 28, 'R5.3': 6, 'R5.4': 7, 'R5.6': 7, 'R5.7': 7, 'R5.8': 10, 'R5.9': 10}
 
 CRATES = ['owning_iovec', 'hcobs', 'rough_tlv', 'sliding_deque', 'vouched_time']
 
@@ -313,6 +313,22 @@ def r5_7(cx):
     d = list(pa.calls(AN + '::decrement_count'))
     okp = len(pb) == 1 and len(d) == 1 and pa.pos_dominates(d[0].pos, pb[0].pos) and is_call(d[0].arg(1), AN + '::count') and \
         any((r := as_relation((e, v))) and r[0] == 'Eq' for e, v, ed in pa.facts_at(pb[0].bb))
+    # the anchor is appended on every path (it is what keeps the buffer it came with alive: it can stand behind a
+    # zero-count anchor, never replace one), and no queued anchor is ever overwritten as a whole
+    always = len(pb) == 1 and pa.path(0, pa.returns(), cut_blocks=[pb[0].bb]) is None
+    cx.check(always, 'push_anchor-appends', pa, pb[0].loc() if pb else None, 'push_anchor reaches anchors.push_back on every path',
+             fail_detail='push_anchor can return without appending the anchor (its buffer is then backed by nothing)')
+    an_ty = prog.adt(AN)['name']
+    over = []
+    for g in method_fns(prog, GD):
+        for pos, pl, rv in g.stores():
+            if rv is None or pl['p'][-1]['k'] != 'deref':
+                continue
+            if g.locals[pl['l']].replace('&mut ', '').replace("&'_ mut ", '').strip().endswith(an_ty.rsplit('::', 1)[-1]) and \
+                    any(c.op.rsplit('::', 1)[-1] in ('back_mut', 'front_mut', 'get_mut', 'index_mut', 'iter_mut') for c in g.local_expr(pl['l'], []).calls()):
+                over.append((g, pos))
+    cx.check(not over, 'anchors-never-overwritten', over[0][0] if over else None, over[0][0].loc(over[0][1].bb) if over else 'owning_iovec/src/global_deque.rs',
+             'no method of the deque assigns a whole Anchor into a queued slot', fail_detail='%s overwrites a queued anchor: the chunk it kept alive is released while slices may still point into it' % (short(over[0][0].name) if over else ''))
     cx.check(okp, 'push_anchor-zeroed', pa, None, 'a pushed anchor has its count zeroed (asserted) before it is queued', fail_detail='push_anchor queues an anchor with a non-zero count')
     cl = prog.fn(GD + '::clear')
     okl = len([c for c in cl.calls(SL + '::clear')]) == 1 and len([c for c in cl.calls('VecDeque::clear')]) == 1
